@@ -2,6 +2,7 @@
 processing pipeline (ProcessingPipeline.from_dict on the YAML-shaped pipeline), serialise the trees
 again, convert rule+pipeline with the verification backend of C01; then spell the hand-rewritten
 document computed by the specification code in props/c12.py and convert it WITHOUT a pipeline."""
+from impl.excname import exc_name
 import copy
 from sigma.rule import SigmaRule, SigmaDetection, SigmaDetectionItem
 from sigma.conditions import ConditionAND
@@ -101,7 +102,7 @@ def convert(rule, pipeline):
         return {"unsupported": str(e)[:100]}
     except Exception as e:  # noqa
         from sigma.exceptions import SigmaError
-        return {"exc": type(e).__name__, "sigma": isinstance(e, SigmaError), "msg": str(e)[:160]}
+        return {"exc": exc_name(e), "sigma": isinstance(e, SigmaError), "msg": str(e)[:160]}
     return {"qs": qs}
 
 
@@ -120,7 +121,7 @@ def run_tr(case):
         out["rout"] = ser_rule(rule, pipeline)
     except Exception as e:  # noqa
         from sigma.exceptions import SigmaError
-        out["apply_exc"] = {"exc": type(e).__name__, "sigma": isinstance(e, SigmaError), "msg": str(e)[:160]}
+        out["apply_exc"] = {"exc": exc_name(e), "sigma": isinstance(e, SigmaError), "msg": str(e)[:160]}
         return out
     # 1b. keyword entries mapped to a field by a leading null-key mapping: what the documented source-level entry
     #     loads to, next to what the pipeline's first item made of the keyword entry (only the values matter)
@@ -156,7 +157,7 @@ def run_tr(case):
         try:
             r2 = SigmaRule.from_dict(copy.deepcopy(rw["rule"]))
         except Exception as e:  # noqa
-            out["skip"] = "rewritten document does not load: " + type(e).__name__ + " " + str(e)[:100]
+            out["skip"] = "rewritten document does not load: " + exc_name(e) + " " + str(e)[:100]
             return out
         # self-check of the speller: every atom detection loads to exactly the value it spells
         chk = {n: ser_det(d) for n, d in r2.detection.detections.items()}
